@@ -722,6 +722,76 @@ Definition sort_individuals (t : tables) : res tables :=
   Ok (set_inds_nodes t rows' nodes').
 
 (* ---------------------------------------------------------------------- *)
+(* 7354: tsk_table_sorter_sort_individuals_canonical (canonicalise)          *)
+(* ---------------------------------------------------------------------- *)
+(* individual_canonical_sort_t 6761 *)
+Record indc_sort := mkIC { ic_id : Z; ic_ind : individual; ic_first_node : Z; ic_nd : Z }.
+
+(* 6840 *)
+Definition cmp_individual_canonical (a b : indc_sort) : Z :=
+  then_cmp (cmp3 (ic_nd b) (ic_nd a))
+  (then_cmp (cmp3 (ic_first_node a) (ic_first_node b))
+            (cmp3 (ic_id a) (ic_id b))).
+
+(* the loop body 7249-7261 with count_descendants: num_descendants[p] += 1 + num_descendants[j] *)
+Fixpoint relax_nd (ps : list Z) (c q nd : list Z) (ndj : Z) : res (list Z * list Z * list Z) :=
+  match ps with
+  | [] => Ok (c, q, nd)
+  | p :: tl => if p =? NULL then relax_nd tl c q nd ndj
+               else do x <- get c p; do c' <- set c p (x - 1);
+                    do y <- get nd p; do nd' <- set nd p (y + 1 + ndj);
+                    relax_nd tl c' (if x - 1 =? 0 then q ++ [p] else q) nd' ndj
+  end.
+
+Fixpoint topo_loop_nd (fuel : nat) (inds : list individual) (c pending nd : list Z)
+  : res (list Z * list Z) :=
+  match fuel with
+  | O => Fuel
+  | S f =>
+      match pending with
+      | [] => Ok (c, nd)
+      | j :: rest =>
+          do r <- get inds j;
+          do ndj <- get nd j;
+          do x <- relax_nd (i_parents r) c rest nd ndj;
+          topo_loop_nd f inds (fst (fst x)) (snd (fst x)) (snd x)
+      end
+  end.
+
+(* first node referring to each individual (7389-7400) *)
+Fixpoint first_nodes (nodes : list node) (j : Z) (fn : list Z) : res (list Z) :=
+  match nodes with
+  | [] => Ok fn
+  | nd :: tl => if n_ind nd =? NULL then first_nodes tl (j + 1) fn
+                else do x <- get fn (n_ind nd); do fn' <- set fn (n_ind nd) (Z.min j x);
+                     first_nodes tl (j + 1) fn'
+  end.
+
+Definition sort_individuals_canonical (qs_ind : list indc_sort -> list indc_sort) (t : tables) : res tables :=
+  let inds := t_inds t in
+  let n := length inds in
+  do c0 <- count_parents (flat_map i_parents inds) (repeat 0 n);
+  do todo <- initial_todo n c0;
+  do r <- topo_loop_nd (S n) inds c0 todo (repeat 0 n);
+  if existsb (fun x => 0 <? x) (fst r) then Err E_INDIVIDUAL_PARENT_CYCLE else
+  do fn <- first_nodes (t_nodes t) 0 (repeat (zlen (t_nodes t)) n);
+  let recs := map (fun x : (Z * individual) * (Z * Z) =>
+                     mkIC (fst (fst x)) (snd (fst x)) (fst (snd x)) (snd (snd x)))
+                  (combine (indexed 0 inds) (combine fn (snd r))) in
+  let sorted := qs_ind recs in
+  do idmap <- fill_id_map (map ic_id sorted) 0 (repeat NULL n);
+  do rows' <- mapM (fun r => do ps <- mapM (remap_id idmap) (i_parents (ic_ind r));
+                             Ok (ind_set_parents (ic_ind r) ps)) sorted;
+  do nodes' <- mapM (fun nd => do x <- remap_id idmap (n_ind nd); Ok (node_set_ind nd x)) (t_nodes t);
+  Ok (set_inds_nodes t rows' nodes').
+
+(* 12236: canonicalise after the subset step (tsk_table_collection_subset is not modelled) *)
+Definition canonical_sorter_run (Q : qsorts) (qs_ind : list indc_sort -> list indc_sort) (t : tables)
+  : res tables :=
+  do t1 <- sorter_run Q true None t;
+  sort_individuals_canonical qs_ind t1.
+
+(* ---------------------------------------------------------------------- *)
 (* execution instance: stdlib merge sort                                   *)
 (* ---------------------------------------------------------------------- *)
 Lemma cmp3_total a b : cmp3 a b <= 0 \/ cmp3 b a <= 0.
@@ -815,6 +885,19 @@ Module SMutC := Sort LMutC.
 Module SIndex := Sort LIndex.
 Module SEdgeCl := Sort LEdgeCl.
 
+Lemma cmp_individual_canonical_antisym a b : cmp_individual_canonical b a = - cmp_individual_canonical a b.
+Proof. unfold cmp_individual_canonical. repeat apply then_cmp_antisym; apply cmp3_antisym. Qed.
+Module LIndC <: TotalLeBool'.
+  Definition t := indc_sort.
+  Definition leb (a b : t) : bool := cmp_individual_canonical a b <=? 0.
+  Infix "<=?" := leb (at level 70, no associativity).
+  Definition leb_total := leb_total_of cmp_individual_canonical cmp_individual_canonical_antisym.
+End LIndC.
+Module SIndC := Sort LIndC.
+Definition qs_ind_merge : list indc_sort -> list indc_sort := SIndC.sort.
+Lemma qs_ind_merge_ok : sorts_by cmp_individual_canonical qs_ind_merge.
+Proof. intro l. split; [apply SIndC.Permuted_sort | apply Sorted_leb_le, SIndC.Sorted_sort]. Qed.
+
 Definition Qmerge : qsorts :=
   mkQ SEdge.sort SMig.sort SSite.sort SMut.sort SMutC.sort SIndex.sort SEdgeCl.sort.
 
@@ -885,3 +968,5 @@ Definition repair (Q : qsorts) (t : tables) : res tables :=
 
 Definition j_ind (r : individual) : J := JL [JZ (i_flags r); j_bytes (i_loc r); j_bytes (i_parents r); j_bytes (i_md r)].
 Definition j_inds_nodes (t : tables) : J := JL [JL (map j_ind (t_inds t)); j_bytes (map n_ind (t_nodes t))].
+
+Definition j_tables_inds (t : tables) : J := JL [j_tables t; j_inds_nodes t].
